@@ -1,6 +1,60 @@
-p='/verif/tools/mkmanifest.py'
+p='/verif/harness/src/c11.rs'
 s=open(p).read()
-s=s.replace("counts never underflow, the cache holds at most 1000 lookups and one per target. Tied to the code","counts never underflow, the cache holds at most 1000 lookups and one per target; and over the storing node's model: under every history of requests the info-hash tables, every per-info-hash peer table, the immutable and the mutable store stay within their capacities, a write refreshes its key or evicts exactly the least recently used entry, a read hit promotes. Tied to the code")
-s=s.replace("store capacities are checked per request in the C03 histories.","the store histories of C03 (incl. histories of repeated immutable puts under capacities 2 and 3) run under this check as well: capacities after every request, and the least-recently-used discipline on the node's own dumps (what was just written or read is the most recently used entry, only the least recently used one goes).")
+s=s.replace('''pub fn generate(seed: u64, scale: usize) -> Cases {
+    let mut r = Rng::new(seed ^ 0xC11);
+    let mut cases = Cases::new();
+    for c in corpus(&mut r) {
+        cases.push("corpus_f12", c);
+    }''','''/// a table whose bucket for the target's distance is full of insecure nodes (distinct public addresses),
+/// with a few secure nodes (private addresses) in other buckets: the secure ones come first in closest()
+pub fn full_bucket_case(r: &mut Rng) -> String {
+    let self_id = id20(r);
+    let d = *r.pick(&[160usize, 159, 158]);
+    let target = id_at_distance(&self_id, d, r);
+    let mut u: Vec<UNode> = Vec::new();
+    let n_in = 20 + r.below(5) as usize;
+    for i in 0..n_in {
+        // distinct public addresses: one insecure node each
+        let ip = 0x2d00_0000u32 + ((i as u32) << 8) + 7;
+        u.push(UNode { id: id_at_distance(&self_id, d, r), ip, port: 1000 + i as u16 });
+    }
+    let n_sec = 1 + r.below(3) as usize;
+    for j in 0..n_sec {
+        let dd = *r.pick(&[157usize, 150, 140, 120, 100]);
+        u.push(UNode { id: id_at_distance(&self_id, dd, r), ip: EXEMPT_IPS[j % EXEMPT_IPS.len()], port: 2000 + j as u16 });
+    }
+    let mut adds: Vec<usize> = (0..u.len()).collect();
+    if r.chance(1, 2) {
+        r.shuffle(&mut adds);
+    }
+    let mut t = RoutingTable::new(Id::from(self_id));
+    for k in &adds {
+        t.add(u[*k].node());
+    }
+    let closest = t.closest(Id::from(target));
+    let nodes = t.to_owned_nodes();
+    let adds_s: Vec<String> = adds.iter().map(|k| format!("{}%nat", k)).collect();
+    format!(
+        "{{| t_target := {}; t_univ := {}; t_ops := [CTable {} [{}] {} {}] |}}",
+        n_hex(&target),
+        univ_coq(&u),
+        n_hex(&self_id),
+        adds_s.join(";"),
+        idx_list(&u, &closest),
+        idx_list(&u, &nodes)
+    )
+}
+
+pub fn generate(seed: u64, scale: usize) -> Cases {
+    let mut r = Rng::new(seed ^ 0xC11);
+    let mut cases = Cases::new();
+    for c in corpus(&mut r) {
+        cases.push("corpus_f12", c);
+    }
+    for _ in 0..(4 * scale.max(1)) {
+        cases.push("full_target_bucket", full_bucket_case(&mut r));
+    }''')
+if "EXEMPT_IPS" not in s.split("pub fn one_case")[0]:
+    s=s.replace("use crate::univ::*;","use crate::univ::*;",1)
 open(p,'w').write(s)
 print('ok')
